@@ -232,10 +232,13 @@ def get_model(
 
         logger.debug('Found "%s" association.', assoc.name)
 
+        # The generated classes of same-named associations are told apart by
+        # the asset types the association declares, not by the (possibly
+        # more specific) types of the two assets that are linked.
         assoc_name = lang_classes_factory.get_association_by_signature(
             assoc.name,
-            left_asset.type,
-            right_asset.type
+            assoc.left_field.asset.name,
+            assoc.right_field.asset.name
         )
 
         if not assoc_name:
